@@ -3,12 +3,14 @@ zndriver: the Lean side of the line protocol.  One operation per input line, one
 `<op> …` runs the model, `spec:<op> …` the spec oracle.  Core-only (no Mathlib) so that it links.
 -/
 import ZnVerif.Ops.C04
+import ZnVerif.Ops.Run
 
 open ZnVerif.Ops
 
 /-- one handler per ops module; first `some` wins -/
 def handlers : List (String → List String → Option String) := [
-  C04.handle
+  C04.handle,
+  Run.handle
 ]
 
 def dispatch (op : String) (args : List String) : String :=
